@@ -12,14 +12,14 @@
    (n + 2|rest| <= 2|bs| + 1) to pop the frame and then continues on [below] with the bytes the
    frame left -- [tail] for a length-delimited frame (e = 0), [rest] for a group -- at depth
    [S d] with flag [A && i']; if it returns [VBad] the machine answers Invalid within 2|bs| + 1
-   steps.  Push = recursive call ([vs_compose]), pop = return ([vs_pop_nil], [vs_pop_end]).
+   steps.  Push = recursive call ([vs_compose]), pop = return ([vs_run_pop_nil], [vs_run_pop_end]).
    The fuel 2|bs| + 2 of [vm_validate_stack] is the bound for the initial frame plus the final
    look at the empty stack. *)
 From Coq Require Import List Arith NArith ZArith Lia Bool.
 From Coq Require Import ZifyBool ZifyNat ZifyN.
 From PB Require Import Base.PBytes Wire.WireModel Wire.VarintP Wire.ScanP.
 From PB Require Import Msg.MsgSchema Msg.MsgValue Msg.MsgUtf8 Msg.MsgDec Msg.ValidateMsgModel Msg.ValidateMsgP.
-From PB Require Import Msg.DecTotalP Msg.ValidateStackP.
+From PB Require Import Msg.DecTotalP Msg.InitSoundP Msg.ValidateStackP.
 Ltac Zify.zify_post_hook ::= Z.div_mod_to_equations.
 Import ListNotations.
 Open Scope N_scope.
@@ -433,3 +433,25 @@ Corollary vs_stack_invalid_sound S limit tid bs :
   dt_schema_wf S -> vp_fl1_free S -> fst (vm_validate_stack S limit tid bs) = 2 ->
   exists e, msg_decode false S limit tid bs = DErr e.
 Proof. intros Hwf Hfl. rewrite vs_stack_eq_recursive by exact Hwf. apply vp_invalid_sound. exact Hfl. Qed.
+
+(* Valid by the machine: Unmarshal succeeds, or this is the FWB4 boundary (depth error) *)
+Corollary vs_stack_valid_cases S limit tid bs i :
+  dt_schema_wf S -> vm_validate_stack S limit tid bs = (3, i) ->
+  (exists v, msg_decode false S limit tid bs = DOk v) \/ msg_decode false S limit tid bs = DErr DDepth.
+Proof.
+  intros Hwf. rewrite vs_stack_eq_recursive by exact Hwf.
+  destruct (vm_validate S limit tid bs) as [[s i'] q] eqn:E. unfold vs_proj. cbn [fst snd].
+  intros H. inversion H; subst s i'. destruct q.
+  - right. eapply vp_valid_quirk. exact E.
+  - left. eapply vp_valid_sound. exact E.
+Qed.
+
+Corollary vs_stack_initialized_sound S limit tid bs v :
+  dt_schema_wf S -> is_schema_ok S ->
+  vm_validate_stack S limit tid bs = (3, true) -> msg_decode false S limit tid bs = DOk v ->
+  msg_check_init S tid v = true.
+Proof.
+  intros Hwf Hok. rewrite vs_stack_eq_recursive by exact Hwf.
+  destruct (vm_validate S limit tid bs) as [[s i'] q] eqn:E. unfold vs_proj. cbn [fst snd].
+  intros H Hd. inversion H; subst s i'. eapply is_validate_initialized_sound; eassumption.
+Qed.
